@@ -248,3 +248,78 @@ def rule_frames_of_created_calls(ctx, rid, rr):
                f"frames {frames}: some created call is attributed to another line (or to a line inside uberjob)")
         out.append(ok)
     return all(out)
+
+
+def rule_totals(ctx, rid, rr, rid_positive=None):
+    """Totals, evaluated on a symbolic plan with calls a1, a2 (scope A), b (scope B) and a literal: the run-totals function
+    announces, for section 'run', exactly one total per scope whose amount is the number of Call nodes in it (2 and 1, never
+    0), and the scope it announces for a call is the scope the run callback reports for that call."""
+    from .rewriterules import World
+    m = ctx.model
+    fs = m.find_funcs("_update_run_totals")
+    if len(fs) != 1:
+        raise AnalysisError("run-totals function (_update_run_totals) not found")
+    f = fs[0]
+    w = World(m, rr)
+    a1, a2, b = w.call("a1", scope=("A",)), w.call("a2", scope=("A",)), w.call("b", scope=("B",))
+    w.interp.call_func(m.method("Plan", "lit", "EVAL"), None, [7], {}, bound_self=w.plan)
+    import collections as _c
+    w.interp.ext["collections.Counter"] = lambda it=(): _c.Counter(list(it))
+    totals, events = [], []
+    obs = Obj(None, {"increment_total": Stub("increment_total", lambda *a, **k: totals.append((k.get("section"), k.get("scope"), k.get("amount")))),
+                     "increment_running": Stub("increment_running", lambda *a, **k: events.append(("running", k.get("section"), k.get("scope")))),
+                     "increment_completed": Stub("increment_completed", lambda *a, **k: None),
+                     "increment_failed": Stub("increment_failed", lambda *a, **k: None)}, name="observer")
+    params = {"plan": w.plan, "progress_observer": obs}
+    try:
+        args = [params[p] for p in f.pos_params if p in params]
+        if len(args) != len([p for p in f.pos_params if p not in f.defaults]):
+            raise AnalysisError(f"unexpected parameters of {f.qualname}: {f.pos_params}")
+        w.interp.call_func(f, None, args, {})
+    except AbsRaise as e:
+        raise AnalysisError(f"abstract evaluation of {f.qualname} raised {e.value!r}")
+    amounts = sorted(t[2] for t in totals if isinstance(t[2], int))
+    ok = amounts == [1, 2] and all(t[0] == "run" for t in totals) and len({t[1] for t in totals}) == 2
+    ctx.ob(rid, f"{f.short}/amount", ok, loc(f), "amount = multiplicity of the scope among the Call nodes" if ok else
+           f"announced amount is not the multiplicity of the scope: two calls in scope A, one in scope B and a literal announced {totals}")
+    if rid_positive:
+        # further inputs of the totals function (parameters with an empty default) are exercised with a scope that no call of
+        # the plan is in: whatever they are for, they must not make a total of 0 appear
+        import ast as _ast
+        for p_ in f.params:
+            d_ = f.defaults.get(p_)
+            if p_ in params or d_ is None:
+                continue
+            empty = (isinstance(d_, (_ast.Tuple, _ast.List, _ast.Set)) and not d_.elts) or (isinstance(d_, _ast.Constant) and d_.value is None) \
+                or (isinstance(d_, _ast.Dict) and not d_.keys)
+            if not empty:
+                continue
+            try:
+                kw = {p_: [("Z",)]}
+                w.interp.call_func(f, None, [params[x] for x in f.pos_params if x in params], kw if p_ in f.kwonly_params else {},
+                                   ) if p_ in f.kwonly_params else w.interp.call_func(
+                    f, None, [params.get(x, [("Z",)] if x == p_ else None) for x in f.pos_params[:f.pos_params.index(p_) + 1]], {})
+            except (AbsRaise, AnalysisError):
+                pass
+        pos = bool(totals) and all(isinstance(t[2], int) and t[2] >= 1 for t in totals)
+        ctx.ob(rid_positive, f"{f.short}/totals-positive", pos, loc(f),
+               "every announced total is at least 1 (the displays divide by it)" if pos else
+               f"a total of 0 (or a non-count) can be announced ({totals}): the HTML display divides by the total and its update thread dies")
+    # same scope as the reports: run the callback for a1 and compare
+    w.interp.ext.setdefault("threading.Lock", lambda: Obj(None, {}, "lock"))
+    w.interp.stubs["prune_source_literals"] = Stub("prune_source_literals", lambda p, **kw: p)
+    for n_ in (a1, a2, b):
+        n_.attrs["fn"] = Stub("fn", lambda *a, **k: "V")
+    try:
+        prep = w.interp.call_func(rr.prep_run, None, [w.plan], {"inplace": False, "output_node": None, "retry": Stub("retry", lambda g: g), "progress_observer": obs})
+        vals = [prep.attrs[n] for n in prep.attrs.get("__tuple_fields__", [])]
+        procs = [v for v in vals if type(v).__name__ == "Closure"]
+        if len(procs) == 1:
+            w.interp.call(procs[0], [a1], {})
+    except AbsRaise as e:
+        raise AnalysisError(f"abstract evaluation of the run callback raised {e.value!r}")
+    sc = [e[2] for e in events if e[0] == "running"]
+    same = bool(sc) and any(t[1] == sc[0] and t[2] == 2 for t in totals)
+    ctx.ob(rid, f"{f.short}~{rr.runcb.short}", same, loc(f),
+           "totals and reporting derive the same scope for a call (evaluated)" if same else
+           f"totals and reports disagree per scope: the total for a1 was announced under {[t[1] for t in totals]}, its execution is reported under {sc}")
